@@ -211,6 +211,22 @@ func c01Trees(tier string) []*enode {
 			}
 		}
 	}
+	// S4: three operators from the multi-character symbol families that share a first character
+	// (every ordered triple, so every A,B,A pattern), as one left chain and as three comparisons joined by AND
+	{
+		L := c01Leaf
+		sib := []string{"<=", "<>", "<<", "<", ">=", ">>", ">", "!=", "="}
+		for _, o1 := range sib {
+			for _, o2 := range sib {
+				for _, o3 := range sib {
+					if tier != "thorough" {
+						add(eBin(o1, eBin(o2, eBin(o3, L(0), L(1)), L(2)), L(3)))
+					}
+					add(eBin("AND", eBin("AND", eBin(o1, L(0), L(1)), eBin(o2, L(2), L(3))), eBin(o3, L(0), L(1))))
+				}
+			}
+		}
+	}
 	c01TreeCache[tier] = trees
 	return trees
 }
@@ -398,7 +414,7 @@ func init() {
 	fw.Register(&fw.Check{
 		ID:    "C01",
 		Level: "model_checking",
-		Rule: "every syntax tree of the reference grammar with <=2 operators over all 22 binary and 2 postfix operators in both nestings, leaves decorated with unary minus / index / call / -a[1] / -(a[1]), NOT at the root and at inner nodes, calls with 0..3 and nested arguments (thorough: all 3-operator binary trees in 5 shapes, all single and joint decorations); each tree printed in 4 styles (minimal parentheses, full parentheses, compact with comments and lower-case keywords, mixed-case keywords) and evaluated under every assignment of its variables from a 5 (thorough 7) value pool; " +
+		Rule: "every syntax tree of the reference grammar with <=2 operators over all 22 binary and 2 postfix operators in both nestings, leaves decorated with unary minus / index / call / -a[1] / -(a[1]), NOT at the root and at inner nodes, calls with 0..3 and nested arguments (thorough: all 3-operator binary trees in 5 shapes, all single and joint decorations), every ordered triple of the 9 comparison/shift symbols that share a first character as a left chain and as three comparisons joined by AND; each tree printed in 4 styles (minimal parentheses, full parentheses, compact with comments and lower-case keywords, mixed-case keywords) and evaluated under every assignment of its variables from a 5 (thorough 7) value pool; " +
 			"oracle: ResultTokens = post-order of the tree for all printings, value = direct recursive evaluation of the tree applying the same IVariantOperations object in written order, function call log identical; non-trivial = trees with >=2 variable leaves",
 		Assume: []string{"operator arithmetic itself is decided by C06; nodes whose operator outcome is unspecified (NOT IN on Null, a function returning nil) are skipped for that assignment", "the recogniser/generator pair is cross-checked on every generated tree"},
 		Spaces: func(tier string) []fw.Space {
